@@ -921,10 +921,10 @@ def handler_run(pid, extra=None):
         from concurrent.futures import ThreadPoolExecutor
         with ThreadPoolExecutor(max_workers=6) as ex:
             reps = list(ex.map(robust(lambda sd: V.run_handler_scenario(sd, 14 if ctx.tier == "quick" else 24), 'handler scenario'), seeds))
-        tot = dict(instances=0, triggers=0, outputs=0, invocations=0)
+        tot = dict(instances=0, triggers=0, outputs=0, invocations=0, bursts_while_busy=0, ephemeral_outputs_seen_by_follower=0)
         for sd, r in zip(seeds, reps):
             for k in tot:
-                tot[k] += r[k]
+                tot[k] += r.get(k, 0) or 0
             for v in r["violations"]:
                 ctx.violation(v["what"][:700], dict(engine="V", seed=sd, script=v.get("script"), handler_id=v.get("handler_id")))
         info = None
@@ -941,6 +941,8 @@ def handler_run(pid, extra=None):
                  "handler_id, frame_id, ttl, content bytes from CAS, user meta, error flag, order); non-trivial = >= 3 closure invocations",
             traces_validated_against_impl=len(seeds), handler_instances=tot["instances"], triggers=tot["triggers"],
             handler_outputs_compared=tot["outputs"], closure_invocations_replayed=tot["invocations"], extra=info,
+            bursts_of_300_frames_while_a_handler_is_busy=tot["bursts_while_busy"],
+            ephemeral_handler_outputs_observed_by_a_live_follower=tot["ephemeral_outputs_seen_by_follower"],
             samples=[dict(seed=seeds[0], scripts=reps[0]["script_samples"])]))
     return run
 
@@ -1052,7 +1054,8 @@ REGISTRY["C12"] = dict(
                "with the u64/u32/usize bounds; ReadOptions (all follow modes with ms heartbeats, tail, last-id, limit, context) "
                "survive client encoding -> server parser; duplicates rejected, unknown keys ignored. Frames: a model of JSON as "
                "serde_json writes and reads it (printer with its escapes, recursive-descent parser with the recursion limit, "
-               "numbers, \\u escapes and surrogate pairs, BTreeMap normalisation) and of the Frame (de)serializer: "
+               "numbers, \\u escapes and surrogate pairs, Value normalisation = insertion order, last duplicate wins - this build's "
+               "serde_json has preserve_order) and of the Frame (de)serializer: "
                "parse (print v) = v for EVERY value nested less than 128 levels and = error for every deeper one; every frame "
                "whose meta nests <= 126 levels decodes to the identical frame, every deeper one does not decode (frame_poison); "
                "the fixed insert_frame (refuses what does not decode) therefore only stores frames that read back identically "
